@@ -336,7 +336,7 @@ Lemma accept_sound_lemma : forall ops i hold s h s' h',
 Proof.
   induction ops as [|o ops IH]; intros i hold s h s' h' H; cbn [replay] in H.
   - inversion H; subst. exists []. split; reflexivity.
-  - unfold ops_events. cbn [map concat]. fold (ops_events ops). destruct o as [e|n Q M maxb|].
+  - unfold ops_events. cbn [map concat]. fold (ops_events ops). destruct o as [e|n Q M maxb| |].
     + destruct (is_hidden e) eqn:Eh; [discriminate|].
       destruct (match hold with Some _ => negb (allowed_while_held matchf e) | None => false end); [discriminate|].
       destruct (step s e) as [s1|] eqn:Es; [|discriminate].
@@ -356,6 +356,13 @@ Proof.
       * rewrite run_app, Es, run_app, Hr. exact Hrun.
       * rewrite !visible_app, (visible_hidden _ Hh), Hvis. reflexivity.
     + destruct (stalled hold s); [|discriminate].
+      destruct (quiesce matchf dirsize None (quiesce_fuel s) s) as [s2|] eqn:Eq; [|discriminate].
+      destruct (quiesce_sound _ _ _ _ Eq) as (hid & Hh & Hr).
+      destruct (IH _ _ _ _ _ _ H) as (evs & Hrun & Hvis).
+      exists (hid ++ evs). split.
+      * rewrite run_app, Hr. exact Hrun.
+      * rewrite visible_app, (visible_hidden _ Hh), Hvis. reflexivity.
+    + destruct hold; [discriminate|]. destruct (st_win s); [|discriminate].
       destruct (quiesce matchf dirsize None (quiesce_fuel s) s) as [s2|] eqn:Eq; [|discriminate].
       destruct (quiesce_sound _ _ _ _ Eq) as (hid & Hh & Hr).
       destruct (IH _ _ _ _ _ _ H) as (evs & Hrun & Hvis).
